@@ -1,5 +1,5 @@
 // govc:pkg stream
-// govc:bound key tuples of arity 1..2 over a pool of 44 values: strings with separator/tag look-alikes (unit, record and group separators, NUL, '|', ','), ints and floats of every width (1 vs 1.0 vs int64(1) vs float32(1) vs int32(1) vs uint(1), 2^53, 2^53+1), bools, NULL; all pairs of tuples compared
+// govc:bound key tuples of arity 1..2 over a pool of 49 values: strings with separator/tag look-alikes (unit, record and group separators, NUL, '|', ',', values ending in the escape character), ints and floats of every width (1 vs 1.0 vs int64(1) vs float32(1) vs int32(1) vs uint(1), 2^53, 2^53+1), bools, NULL; all pairs of tuples compared
 // Bounded stand-in (NOT a proof): encodeKey gives two key tuples the same table key iff every component matches
 // (numbers numerically, strings exactly, NULL with NULL, no cross-type matches).
 package stream
@@ -53,7 +53,7 @@ func govcKeyEq(a, b any) bool {
 }
 
 func TestGovcBounded_table_keys(t *testing.T) {
-	pool := []any{nil, "", "a", "b", "\x1f", "a\x1f", "\x1fa", "a\x1fs:b", "b\x1fs:b", "s:b", "s:a", "n:1", "1", "<nil>", "b:true", "\\", true, false,
+	pool := []any{nil, "", "a", "b", "\x1f", "a\x1f", "\x1fa", "a\x1fs:b", "b\x1fs:b", "s:b", "s:a", "n:1", "1", "<nil>", "b:true", "\\", "a\\", "a\x1fs:b\\", "b\x1fs:c", "c", "\\\x1f", true, false,
 		// other control characters a changed separator could be, alone and as imitations of the framing between two parts
 		"\x1e", "a\x1es:b", "b\x1es:b", "\x1d", "a\x1ds:b", "\x00", "a\x00s:b", "a|s:b", "a,s:b",
 		1, 1.0, int64(1), 2, 1.5, int64(9007199254740992), int64(9007199254740993), 1e19, 2e19, uint64(18446744073709551615), uint64(10000000000000000000),
